@@ -197,6 +197,21 @@ func propC19(r *Run) {
 		if wedge := w.drain(nil); wedge != "" {
 			r.Fail("hooks/call-delayed-by-hook", "a management call did not return: %s", wedge)
 		}
+		if r.Choose("burst-of-changes", 5) == 0 {
+			// a burst of changes, more than any queue between the dispatcher and the hook runner holds,
+			// all within one instant: the first one starts a round (whose hooks may hang), the others
+			// are answered without any time passing
+			var plan []*Call
+			for k, kN := 0, 36+r.Choose("burst-len", 10); k < kN; k++ {
+				plan = append(plan, &Call{Agent: a.idx, Via: "agent", Kind: "remove", User: fmt.Sprintf("ghost-%d", k)})
+			}
+			w.addClient(plan)
+			r.Count("probe:burst-of-changes")
+			if stalled := w.quiesce(nil); stalled != "" {
+				wedge := w.drain(nil)
+				r.Fail("hooks/call-delayed-by-hook", "a burst of %d changes: calls were not answered until time passed (a hook that has not finished delays the agent): %s %s", len(plan), stalled, wedge)
+			}
+		}
 		baseOf := func(step int) string { return w.baseOf(a.idx, step) }
 		// let hanging hooks reach their time limit
 		time.Sleep(2 * time.Minute)
